@@ -4,7 +4,7 @@ from ..run import Root, leaves, Ptr, Enum
 from ..alg import C, sym, fn, Rat, named, atom_in
 from ..sem import B, lt, le, gt, ge
 from ..shapes import *
-from ..rules import cond_leaves, feasible_paths, nonconst_conds
+from ..rules import cond_leaves, feasible_paths, nonconst_conds, region_views, view_paths
 from ..ordeval import CB, mkenv
 from .. import alg
 
@@ -106,33 +106,26 @@ def factor_regions(p, fac):
 
 
 def clamped_rule(ctx, key, rs, fac, expected_of, rule, w, clamped, conv=lambda p: leaves(p.ret), other_conds_ok=lambda c: False):
-    """every returning path's value equals expected_of(g) where g is the factor (unclamped forms) or the factor clamped to [0,1]"""
+    """every returning path's value equals expected_of(g) where g is the factor (unclamped forms) or the factor clamped to [0,1];
+    a clamp written with branches and one written with min/max are treated alike (region views)"""
     paths = [p for p in feasible_paths(rs)]
-    ok_all = True; n = 0
+    ok_all = True; covered = set(); n = 0
     for i, p in enumerate(paths):
         if p.out != 'ret':
             ok_all &= ctx.ob('%s/path%d' % (key, i), False, rule, w, 'returns', p.out + ': ' + str(p.panic)); continue
         if not clamped:
-            g = fac
-        else:
-            regs = factor_regions(p, fac)
-            if not regs:
-                ok_all &= ctx.ob('%s/path%d/factor-regions' % (key, i), False, rule, w, 'conditions compare the factor with 0 and 1 only', [str(c) for c in p.conds]); continue
-            if 'mid' in regs: g = fac
-            elif 'neg' in regs: g = C(0)
-            elif 'big' in regs: g = C(1)
-            elif 'zero' in regs: g = C(0)
-            else: g = C(1)
-            # a path must not merge regions with different clamped values
-            vals = set()
-            for r_ in regs: vals.add({'neg': '0', 'zero': '0/f', 'mid': 'f', 'one': '1/f', 'big': '1'}[r_])
-            if ('0' in vals and ('f' in vals or '1' in vals or '1/f' in vals)) or ('1' in vals and ('f' in vals or '0/f' in vals)):
-                ok_all &= ctx.ob('%s/path%d/regions' % (key, i), False, rule, w, 'one clamped value per path', regs); continue
-        exp = expected_of(g); got = conv(p)
-        same = len(exp) == len(got) and all(x == y for x, y in zip(got, exp))
-        n += 1
-        ok_all &= ctx.ob('%s/path%d' % (key, i), same, rule, w, [str(e) for e in exp][:4], [str(x) for x in got][:4])
-    ctx.ob(key + '/covers', n >= (3 if clamped else 1), 'paths: the clamped form has the three outcomes factor<0, inside, factor>1' if clamped else 'paths', w, 3 if clamped else 1, n)
+            exp = expected_of(fac); got = conv(p); n += 1
+            ok_all &= ctx.ob('%s/path%d' % (key, i), len(exp) == len(got) and all(x == y for x, y in zip(got, exp)), rule, w, [str(e) for e in exp][:4], [str(x) for x in got][:4])
+            continue
+        views = region_views(p, fac)
+        if not views:
+            ok_all &= ctx.ob('%s/path%d/factor-regions' % (key, i), False, rule, w, 'conditions compare the factor with 0 and 1 only', [str(c) for c in p.conds]); continue
+        for reg, g, fix in views:
+            exp = [fix(e) for e in expected_of(g)]; got = [fix(x) for x in conv(p)]
+            covered.add(reg); n += 1
+            ok_all &= ctx.ob('%s/path%d/%s' % (key, i, reg), len(exp) == len(got) and all(x == y for x, y in zip(got, exp)), rule + ' [factor %s]' % reg, w, [str(e) for e in exp][:4], [str(x) for x in got][:4])
+    if clamped: ctx.ob(key + '/covers', covered == {'below', 'at-lo', 'inside', 'at-hi', 'above'}, 'paths: the clamped form is defined on every order region of the factor relative to 0 and 1', w, 5, sorted(covered))
+    else: ctx.ob(key + '/covers', n >= 1, 'paths', w, 1, n)
     return ok_all
 
 
@@ -211,32 +204,30 @@ def qslerp(ctx, key, rs, w, cl, ty='f32'):
     A = [sym('a0.' + c) for c in QF]; Bv = [sym('a1.' + c) for c in QF]; f = sym('a2')
     eps = named('eps:' + ty)
     d = dot(A, Bv)
-    paths = [p for p in feasible_paths(rs)]
     seen = set()
-    for i, p in enumerate(paths):
+    for i, p in view_paths(rs, f, cl):
+        i = i[4:]
+        if p is None:
+            ctx.ob('%s/path%s/factor' % (key, i), False, 'paths', w, 'factor compared with 0 and 1', 'a condition splits an order region of the factor'); continue
         if p.out != 'ret':
-            ctx.ob('%s/path%d' % (key, i), False, 'paths', w, 'returns', p.out); continue
+            ctx.ob('%s/path%s' % (key, i), False, 'paths', w, 'returns', p.out); continue
         conds = nonconst_conds(p)
         fconds = [c for c in conds if c.atoms() <= f.atoms()]
         oconds = [c for c in conds if not (c.atoms() <= f.atoms())]
-        if cl:
-            regs = factor_regions(p, f)
-            if not regs: ctx.ob('%s/path%d/factor' % (key, i), False, 'paths', w, 'factor compared with 0 and 1', [str(c) for c in fconds]); continue
-            g = f if 'mid' in regs else C(0) if ('neg' in regs or 'zero' in regs) else C(1)
-        else:
-            g = f
-            ctx.ob('%s/path%d/no-factor-branch' % (key, i), not fconds, 'paths: the unclamped form does not branch on the factor', w, [], [str(c) for c in fconds])
+        g = p.g
+        if not cl:
+            ctx.ob('%s/path%s/no-factor-branch' % (key, i), not fconds, 'paths: the unclamped form does not branch on the factor', w, [], [str(c) for c in fconds])
         flip = any(c == lt(d, C(0)) for c in oconds); noflip = any(c == ge(d, C(0)) for c in oconds)
         if flip == noflip:
-            ctx.ob('%s/path%d/sign-decision' % (key, i), False, 'paths: `to` is negated exactly when dot(from, to) < 0 (shorter arc)', w, 'dot < 0 or dot >= 0', [str(c) for c in oconds]); continue
+            ctx.ob('%s/path%s/sign-decision' % (key, i), False, 'paths: `to` is negated exactly when dot(from, to) < 0 (shorter arc)', w, 'dot < 0 or dot >= 0', [str(c) for c in oconds]); continue
         sgn = C(-1) if flip else C(1)
         to = [sgn * x for x in Bv]; ct = sgn * d
         lin = any(c == gt(ct, C(1) - eps) for c in oconds); sph = any(c == le(ct, C(1) - eps) for c in oconds)
         if lin == sph:
-            ctx.ob('%s/path%d/fallback-decision' % (key, i), False, 'paths: linear fallback exactly when cos(theta) > 1 - epsilon', w, 'cos > 1-eps or cos <= 1-eps', [str(c) for c in oconds]); continue
+            ctx.ob('%s/path%s/fallback-decision' % (key, i), False, 'paths: linear fallback exactly when cos(theta) > 1 - epsilon', w, 'cos > 1-eps or cos <= 1-eps', [str(c) for c in oconds]); continue
         extra = [c for c in oconds if not (c == lt(d, C(0)) or c == ge(d, C(0)) or c == gt(ct, C(1) - eps) or c == le(ct, C(1) - eps))]
-        ctx.ob('%s/path%d/only-documented-decisions' % (key, i), not extra, 'paths: no other data-dependent decision', w, [], [str(c) for c in extra])
-        seen.add((flip, lin) if not cl else (flip, lin, str(g)))
+        ctx.ob('%s/path%s/only-documented-decisions' % (key, i), not extra, 'paths: no other data-dependent decision', w, [], [str(c) for c in extra])
+        seen.add((flip, lin) if not cl else (flip, lin, p.reg))
         got = leaves(p.ret)
         if lin:
             v = [L(A[j], to[j], g) for j in range(4)]; s = alg.sqrt(sum_(x * x for x in v))
@@ -245,18 +236,18 @@ def qslerp(ctx, key, rs, w, cl, ty='f32'):
             th = fn('acos', ct)
             exp = [(A[j] * fsin((C(1) - g) * th) + to[j] * fsin(g * th)) / fsin(th) for j in range(4)]
         ok = len(got) == 4 and all(x == y for x, y in zip(got, exp))
-        ctx.ob('%s/path%d/value' % (key, i), ok, 'alg=: slerp = (from sin((1-g)theta) + to\' sin(g theta)) / sin(theta), theta = acos(from . to\'), to\' = +-to; nlerp on the fallback path', w, [str(e) for e in exp][:2], [str(x) for x in got][:2])
+        ctx.ob('%s/path%s/value' % (key, i), ok, 'alg=: slerp = (from sin((1-g)theta) + to\' sin(g theta)) / sin(theta), theta = acos(from . to\'), to\' = +-to; nlerp on the fallback path', w, [str(e) for e in exp][:2], [str(x) for x in got][:2])
         if not cl and ok:
             # endpoints by substitution into the computed value
             at0 = [x.subs_deep({atom_in('a2'): C(0)}) for x in got]; at1 = [x.subs_deep({atom_in('a2'): C(1)}) for x in got]
             if lin:
                 s0 = alg.sqrt(sum_(x * x for x in A)); s1 = alg.sqrt(sum_(x * x for x in to))
-                ctx.ob('%s/path%d/at0' % (key, i), all(x == y / s0 for x, y in zip(at0, A)), 'alg=: value at factor 0 is from (normalised)', w, 'from/|from|', [str(x) for x in at0][:2])
-                ctx.ob('%s/path%d/at1' % (key, i), all(x == y / s1 for x, y in zip(at1, to)), 'alg=: value at factor 1 is +-to (normalised)', w, 'to/|to|', [str(x) for x in at1][:2])
+                ctx.ob('%s/path%s/at0' % (key, i), all(x == y / s0 for x, y in zip(at0, A)), 'alg=: value at factor 0 is from (normalised)', w, 'from/|from|', [str(x) for x in at0][:2])
+                ctx.ob('%s/path%s/at1' % (key, i), all(x == y / s1 for x, y in zip(at1, to)), 'alg=: value at factor 1 is +-to (normalised)', w, 'to/|to|', [str(x) for x in at1][:2])
             else:
-                ctx.ob('%s/path%d/at0' % (key, i), all(x == y for x, y in zip(at0, A)), 'alg=: value at factor 0 is from', w, [str(x) for x in A][:2], [str(x) for x in at0][:2])
-                ctx.ob('%s/path%d/at1' % (key, i), all(x == y for x, y in zip(at1, to)), 'alg=: value at factor 1 is +-to (the sign that denotes the same rotation)', w, [str(x) for x in to][:2], [str(x) for x in at1][:2])
-    want = 4 if not cl else 12
+                ctx.ob('%s/path%s/at0' % (key, i), all(x == y for x, y in zip(at0, A)), 'alg=: value at factor 0 is from', w, [str(x) for x in A][:2], [str(x) for x in at0][:2])
+                ctx.ob('%s/path%s/at1' % (key, i), all(x == y for x, y in zip(at1, to)), 'alg=: value at factor 1 is +-to (the sign that denotes the same rotation)', w, [str(x) for x in to][:2], [str(x) for x in at1][:2])
+    want = 4 if not cl else 20
     ctx.ob(key + '/outcomes', len(seen) == want, 'paths: all (sign) x (fallback)%s outcomes exist' % (' x (factor region)' if cl else ''), w, want, len(seen))
 
 
@@ -266,31 +257,35 @@ def vslerp(ctx, key, rs, w, cl, K):
     ua = [x / ma for x in A]; ub = [x / mb for x in Bv]
     d = dot(ua, ub)
     n = 0
-    for i, p in enumerate(feasible_paths(rs)):
+    for i, p in view_paths(rs, f, cl):
+        i = i[4:]
+        if p is None:
+            ctx.ob('%s/path%s/factor' % (key, i), False, 'paths', w, 'factor compared with 0 and 1', 'a condition splits an order region of the factor'); continue
         if p.out != 'ret':
-            ctx.ob('%s/path%d' % (key, i), False, 'paths', w, 'returns', p.out); continue
+            ctx.ob('%s/path%s' % (key, i), False, 'paths', w, 'returns', p.out); continue
         conds = nonconst_conds(p)
         fconds = [c for c in conds if c.atoms() <= f.atoms()]
-        if cl:
-            regs = factor_regions(p, f)
-            if not regs: ctx.ob('%s/path%d/factor' % (key, i), False, 'paths', w, 'factor compared with 0 and 1', [str(c) for c in fconds]); continue
-            g = f if 'mid' in regs else C(0) if ('neg' in regs or 'zero' in regs) else C(1)
-        else:
-            g = f
-            ctx.ob('%s/path%d/no-factor-branch' % (key, i), not fconds, 'paths: the unclamped form does not branch on the factor (lengths extrapolate linearly)', w, [], [str(c) for c in fconds])
+        g = p.g
+        if not cl:
+            ctx.ob('%s/path%s/no-factor-branch' % (key, i), not fconds, 'paths: the unclamped form does not branch on the factor (lengths extrapolate linearly)', w, [], [str(c) for c in fconds])
         # cos clamped to [-1,1]: three regions decided by the path
         oconds = [c for c in conds if not (c.atoms() <= f.atoms())]
-        if any(c == lt(d, C(-1)) for c in oconds): ca = C(-1)
-        elif any(c == gt(d, C(1)) for c in oconds): ca = C(1)
-        else: ca = d
-        al = fn('acos', ca); sa = fsin(al)
-        t1 = fsin((C(1) - g) * al) / sa; t2 = fsin(g * al) / sa
-        mag = L(ma, mb, g)
-        exp = [(ua[j] * t1 + ub[j] * t2) * mag for j in range(N)]
+        # the clamp of the cosine may be written with branches (three regions decided by the path) or with min/max (one expression)
+        from ..sem import minmax
+        if any(c == lt(d, C(-1)) for c in oconds): cands = [C(-1)]
+        elif any(c == gt(d, C(1)) for c in oconds): cands = [C(1)]
+        elif any(c == ge(d, C(-1)) for c in oconds) and any(c == le(d, C(1)) for c in oconds): cands = [d]
+        else: cands = [minmax('min', minmax('max', d, C(-1)), C(1))]
         got = leaves(p.ret)
-        ok = len(got) == N and all(x == y for x, y in zip(got, exp))
+        ok = False
+        for ca in cands:
+            al = fn('acos', ca); sa = fsin(al)
+            t1 = fsin((C(1) - g) * al) / sa; t2 = fsin(g * al) / sa
+            mag = L(ma, mb, g)
+            exp = [p.fix(e) for e in [(ua[j] * t1 + ub[j] * t2) * mag for j in range(N)]]
+            ok = ok or (len(got) == N and all(x == y for x, y in zip(got, exp)))
         n += 1
-        ctx.ob('%s/path%d/value' % (key, i), ok, 'alg=: vector slerp = (from^ sin((1-g)a) + to^ sin(g a))/sin(a) * lerp(|from|, |to|, g), a = acos(clamp(from^ . to^))', w, [str(e) for e in exp][:1], [str(x) for x in got][:1])
+        ctx.ob('%s/path%s/value' % (key, i), ok, 'alg=: vector slerp = (from^ sin((1-g)a) + to^ sin(g a))/sin(a) * lerp(|from|, |to|, g), a = acos(clamp(from^ . to^))', w, [str(e) for e in exp][:1], [str(x) for x in got][:1])
     ctx.ob(key + '/covers', n >= 1, 'paths', w, '>=1', n)
 
 
@@ -299,28 +294,27 @@ def xform(ctx, key, rs, w, cl, byref):
     P0 = [sym('a0.position.' + c) for c in 'xyz']; P1 = [sym('a1.position.' + c) for c in 'xyz']
     S0 = [sym('a0.scale.' + c) for c in 'xyz']; S1 = [sym('a1.scale.' + c) for c in 'xyz']
     O0 = [sym('a0.orientation.' + c) for c in QF]; O1 = [sym('a1.orientation.' + c) for c in QF]
-    for i, p in enumerate(feasible_paths(rs)):
+    for i, p in view_paths(rs, f, cl):
+        i = i[4:]
+        if p is None:
+            ctx.ob('%s/path%s/factor' % (key, i), False, 'paths', w, 'factor compared with 0 and 1', 'a condition splits an order region of the factor'); continue
         if p.out != 'ret':
-            ctx.ob('%s/path%d' % (key, i), False, 'paths', w, 'returns', p.out); continue
-        if cl:
-            regs = factor_regions(p, f)
-            if not regs: ctx.ob('%s/path%d/factor' % (key, i), False, 'paths', w, 'factor compared with 0 and 1', [str(c) for c in p.conds]); continue
-            g = f if 'mid' in regs else C(0) if ('neg' in regs or 'zero' in regs) else C(1)
-        else: g = f
+            ctx.ob('%s/path%s' % (key, i), False, 'paths', w, 'returns', p.out); continue
+        g = p.g
         got = leaves(p.ret)
         calls = p.ev('call')
         okc = len(calls) == 1 and 'slerp_unclamped' in calls[0][1]
-        ctx.ob('%s/path%d/orientation-by-slerp' % (key, i), okc, 'deleg: the orientation is interpolated by the quaternion slerp_unclamped, once', w, 'one slerp_unclamped call', [c[1] for c in calls])
+        ctx.ob('%s/path%s/orientation-by-slerp' % (key, i), okc, 'deleg: the orientation is interpolated by the quaternion slerp_unclamped, once', w, 'one slerp_unclamped call', [c[1] for c in calls])
         if not okc: continue
         args = [p.term(t) for t in calls[0][2]]
         exp_args = O0 + O1 + [g]
-        ctx.ob('%s/path%d/slerp-args' % (key, i), len(args) == 9 and all(x == y for x, y in zip(args, exp_args)), 'deleg: slerp_unclamped(a.orientation, b.orientation, factor)', w, [str(x) for x in exp_args], [str(x) for x in args])
+        ctx.ob('%s/path%s/slerp-args' % (key, i), len(args) == 9 and all(x == y for x, y in zip(args, exp_args)), 'deleg: slerp_unclamped(a.orientation, b.orientation, factor)', w, [str(x) for x in exp_args], [str(x) for x in args])
         name = calls[0][1]
         call = fn('call:' + name, *exp_args)
         expo = [fn('ret:%d' % j, call) for j in range(4)]
         exp = [L(P0[j], P1[j], g) for j in range(3)] + expo + [L(S0[j], S1[j], g) for j in range(3)]
         ok = len(got) == 10 and all(x == y for x, y in zip(got, exp))
-        ctx.ob('%s/path%d/value' % (key, i), ok, 'alg=: Transform lerp = (lerp position, slerp orientation, lerp scale)', w, [str(e) for e in exp][:4], [str(x) for x in got][:4])
+        ctx.ob('%s/path%s/value' % (key, i), ok, 'alg=: Transform lerp = (lerp position, slerp orientation, lerp scale)', w, [str(e) for e in exp][:4], [str(x) for x in got][:4])
 
 
 def trans(ctx, key, rs, w, cl, m):
@@ -332,18 +326,17 @@ def trans(ctx, key, rs, w, cl, m):
     else:
         a = [sym('a0.start.x'), sym('a0.start.y')]; b = [sym('a0.end.x'), sym('a0.end.y')]
     n = 0
-    for i, p in enumerate(feasible_paths(rs)):
+    for i, p in view_paths(rs, mapped, cl):
+        i = i[4:]
+        if p is None:
+            ctx.ob('%s/path%s/factor' % (key, i), False, 'paths', w, 'mapped progress compared with 0 and 1', 'a condition splits an order region of the mapped progress'); continue
         if p.out != 'ret':
-            ctx.ob('%s/path%d' % (key, i), False, 'paths', w, 'returns', p.out); continue
-        if cl:
-            regs = factor_regions(p, mapped)
-            if not regs: ctx.ob('%s/path%d/factor' % (key, i), False, 'paths', w, 'mapped progress compared with 0 and 1', [str(c) for c in p.conds]); continue
-            g = mapped if 'mid' in regs else C(0) if ('neg' in regs or 'zero' in regs) else C(1)
-        else: g = mapped
+            ctx.ob('%s/path%s' % (key, i), False, 'paths', w, 'returns', p.out); continue
+        g = p.g
         if m['mapper'] == 'fn':
             calls = p.ev('call')
-            ctx.ob('%s/path%d/maps-progress' % (key, i), len(calls) >= 1 and all(c[1] == 'a0.progress_mapper.0' and [p.term(t) for t in c[2]] == [pr] for c in calls), 'deleg: the progress mapper is applied to the progress', w, 'mapper(progress)', [(c[1], [str(p.term(t)) for t in c[2]]) for c in calls])
+            ctx.ob('%s/path%s/maps-progress' % (key, i), len(calls) >= 1 and all(c[1] == 'a0.progress_mapper.0' and [p.term(t) for t in c[2]] == [pr] for c in calls), 'deleg: the progress mapper is applied to the progress', w, 'mapper(progress)', [(c[1], [str(p.term(t)) for t in c[2]]) for c in calls])
         got = leaves(p.ret); exp = [L(a[j], b[j], g) for j in range(len(a))]
         n += 1
-        ctx.ob('%s/path%d/value' % (key, i), len(got) == len(exp) and all(x == y for x, y in zip(got, exp)), 'alg=: the accessor is the same-named Lerp function on (start, end, mapped progress%s)' % (' clamped to [0,1]' if cl else ''), w, [str(e) for e in exp], [str(x) for x in got])
-    ctx.ob(key + '/covers', n >= (3 if cl else 1), 'paths', w, 3 if cl else 1, n)
+        ctx.ob('%s/path%s/value' % (key, i), len(got) == len(exp) and all(x == y for x, y in zip(got, exp)), 'alg=: the accessor is the same-named Lerp function on (start, end, mapped progress%s)' % (' clamped to [0,1]' if cl else ''), w, [str(e) for e in exp], [str(x) for x in got])
+    ctx.ob(key + '/covers', n >= (5 if cl else 1), 'paths', w, 5 if cl else 1, n)
